@@ -36,7 +36,7 @@ def cbSupported (r : CbRule) : Bool := r.strat ≤ 2
 def flowSupported (r : FlowRule) : Bool :=
   r.rel == 0 && r.ref == 0 && (r.tcs == 0 || (r.tcs == 1 && r.cb == 0 && r.thr > 0))
 
-def hotSupported (r : HotRule) : Bool := r.mtype == 1 && r.cb ≤ 1 && r.pidx == 0 && r.items != 1
+def hotSupported (r : HotRule) : Bool := r.mtype ≤ 1 && r.cb ≤ 1 && r.pidx == 0 && r.items != 1
 def hotInert (r : HotRule) : Bool := r.cb ≤ 1 && r.thr ≥ bigThr && (r.items != 2 || r.sthr ≥ bigThr)
 def cbInert (r : CbRule) : Bool := r.strat == 2 && r.thr ≥ bigThr
 def flowInert (r : FlowRule) : Bool := r.tcs == 0 && r.cb == 0 && r.thr ≥ bigThr
@@ -54,6 +54,7 @@ structure St where
   hot : Mgr HotRule HotSt := Mgr.empty
   now : Nat := 1900000000000     -- every phase starts at the same virtual time
   nodes : List (Nat × Sentinel.LA.Arr Nat) := []     -- resource nodes: pass counts (20 × 500 ms)
+  live : List (Nat × Nat × Nat × Nat) := []        -- entries in flight: handle ↦ (resource, argument, start time)
   -- oracle side
   phaseB : Bool := false
   cbRaw : List (Nat × List CbRule) := []       -- what the caller passed last for each resource (valid rules)
@@ -70,43 +71,68 @@ def assoc {α} (xs : List (Nat × α)) (k : Nat) (v : α) : List (Nat × α) := 
 
 def nodeOf (s : St) (x : Nat) : Sentinel.LA.Arr Nat := lookup (Sentinel.LA.mk 20 500 s.now) s.nodes x
 
-/-- one entry (with its completion) on resource `x` -/
-def entry0 (s : St) (x : Nat) (err : Bool) (arg : Nat) (rt : Nat) : St × String :=
+/-- `api.Entry` on resource `x`: the rule checks in slot order and, if all pass, the stat slots' `OnEntryPassed`.
+    `none` = admitted (with the total wait), `some text` = refused. -/
+def enterChecks (s : St) (x : Nat) (arg : Nat) : St × Option String × Nat :=
   let node := nodeOf s x
   let s := { s with nodes := assoc s.nodes x node }
   let (fb, w, fcs) := flowScan s.now (flowRead node s.now) (s.flow.ctls x)
   let s := { s with flow := s.flow.set x fcs }
   match fb with
-  | some id => (s, s!"block flow {id}")
+  | some id => (s, some s!"block flow {id}", 0)
   | none =>
     let (hb, hw, hcs) := if arg = 0 then (none, 0, s.hot.ctls x) else hotScan s.now arg (s.hot.ctls x)
     let w := w + hw
     let s := { s with hot := s.hot.set x hcs }
     match hb with
-    | some id => (s, s!"block hot {id}")
+    | some id => (s, some s!"block hot {id}", 0)
     | none =>
     let (cbb, ccs) := cbCheck s.now (s.cb.ctls x)
+    let s := { s with cb := s.cb.set x ccs }
     match cbb with
-    | some id => ({ s with cb := s.cb.set x ccs }, s!"block cb {id}")
+    | some id => (s, some s!"block cb {id}", 0)
     | none =>
-      -- passed every check: the stat slots count the pass, the completion feeds the breakers
+      -- passed every check: the stat slots count the pass and the call in flight
       let node := (Sentinel.LA.addAt node s.now 1).1
       let fcs := fcs.map (flowRecordPass s.now)
-      -- the request takes `rt` ms (the clock moves), then completes
-      let s := { s with now := s.now + rt }
-      let ccs := ccs.map (cbComplete s.now rt err)
-      ({ s with cb := s.cb.set x ccs, flow := s.flow.set x fcs, nodes := assoc s.nodes x node },
-        if w = 0 then "pass" else s!"pass wait {w}")
+      let hcs := hcs.map (hotConcAdd 1 arg)
+      ({ s with flow := s.flow.set x fcs, hot := s.hot.set x hcs, nodes := assoc s.nodes x node }, none, w)
 
-/-- the clock ends at entry time + `rt` whether the request was refused or not (both phases keep the same clock) -/
+/-- `Exit` of an admitted entry: `OnCompleted` of the stat slots, on the controllers the resource has *now* -/
+def complete (s : St) (x : Nat) (arg : Nat) (start : Nat) (err : Bool) : St :=
+  let ccs := (s.cb.ctls x).map (cbComplete s.now (s.now - start) err)
+  let hcs := (s.hot.ctls x).map (hotConcAdd (-1) arg)
+  { s with cb := s.cb.set x ccs, hot := s.hot.set x hcs }
+
+def passText (w : Nat) : String := if w = 0 then "pass" else s!"pass wait {w}"
+
+/-- `e`: entry and exit in one op; the request takes `rt` ms.  The clock ends at entry time + `rt` whether the request
+    was refused or not (both phases keep the same clock). -/
 def entry (s : St) (x : Nat) (err : Bool) (arg : Nat) (rt : Nat) : St × String :=
-  let (s', r) := entry0 s x err arg rt
-  ({ s' with now := s.now + rt }, r)
+  let t0 := s.now
+  let (s, b, w) := enterChecks s x arg
+  let s := { s with now := t0 + rt }
+  match b with
+  | some r => (s, r)
+  | none => (complete s x arg t0 err, passText w)
 
-/-- oracle bookkeeping for one reload of a module: per resource, was the list left unchanged (inert rules aside),
-    and does the `NoSteal` hypothesis hold -/
+/-- `in h x arg`: an entry that stays in flight under the handle `h` (if admitted) -/
+def enterLive (s : St) (h x arg : Nat) : St × String :=
+  let (s', b, w) := enterChecks s x arg
+  match b with
+  | some r => (s', r)
+  | none => ({ s' with live := (h, x, arg, s.now) :: s'.live.filter (·.1 != h) }, passText w)
+
+/-- `out h err`: exit of the entry in flight under `h` (`none` if there is none) -/
+def exitLive (s : St) (h : Nat) (err : Bool) : St × String :=
+  match s.live.find? (·.1 == h) with
+  | none => (s, "none")
+  | some (_, x, arg, start) => (complete { s with live := s.live.filter (·.1 != h) } x arg start err, "done")
+
+/-- oracle bookkeeping for one reload of a module: per resource, was the list left unchanged (never-refusing rules and
+    decision-neutral fields aside), and is a controller stolen -/
 def judgeReload {R S} [DecidableEq R] (K : Calc R S) (valid : R → Bool) (res : R → Nat) (inert : R → Bool)
-    (warmKey : Bool)
+    (warmKey : Bool) (neutral : R → R)
     (m : Mgr R S) (raw : List (Nat × List R)) (rules : List R) (only : Option Nat) (fl : List (Nat × Flags)) :
     List (Nat × Flags) × List (Nat × List R) :=
   let xs := match only with
@@ -116,9 +142,9 @@ def judgeReload {R S} [DecidableEq R] (K : Calc R S) (valid : R → Bool) (res :
     let n := rulesOf valid res x rules
     let o := lookup [] raw x
     let f : Flags := lookup ({} : Flags) acc.1 x
-    let same := decide (n.filter (!inert ·) = o.filter (!inert ·))
+    let same := decide ((n.filter (!inert ·)).map neutral = (o.filter (!inert ·)).map neutral)
     let f := if !same then { f with unclaimed := true } else f
-    let f := if same && !noStealB K n (m.ctls x) then { f with steal := true } else f
+    let f := if same && !stealSim K (fun r => neutral (K.norm r)) n (m.ctls x) then { f with steal := true } else f
     -- a rule the constructor normalises, reloaded as it was: only the flow warm-up calculator loses state by that
     let f := if warmKey && same && n.any (fun r => decide (K.norm r ≠ r) && o.contains r) then { f with warm := true } else f
     (assoc acc.1 x f, assoc acc.2 x n)) (fl, raw)
@@ -132,8 +158,8 @@ def doLoad (oracle : Bool) (s : St) (modl : String) (re : Bool) (only : Option N
     | some rules =>
       if !rules.all cbSupported then (s, some "bad-op") else
       let (fl, raw) := if oracle then
-          (if re then judgeReload cbCalc CbRule.valid (·.res) cbInert false s.cb s.cbRaw rules only s.flags
-           else (s.flags, (judgeReload cbCalc CbRule.valid (·.res) cbInert false s.cb s.cbRaw rules only s.flags).2))
+          (if re then judgeReload cbCalc CbRule.valid (·.res) cbInert false id s.cb s.cbRaw rules only s.flags
+           else (s.flags, (judgeReload cbCalc CbRule.valid (·.res) cbInert false id s.cb s.cbRaw rules only s.flags).2))
         else (s.flags, s.cbRaw)
       let m := match only with
         | none => s.cb.loadRules cbCalc CbRule.valid (·.res) s.now rules
@@ -145,8 +171,8 @@ def doLoad (oracle : Bool) (s : St) (modl : String) (re : Bool) (only : Option N
     | some rules =>
       if !rules.all flowSupported then (s, some "bad-op") else
       let (fl, raw) := if oracle then
-          (if re then judgeReload flowCalc FlowRule.valid (·.res) flowInert true s.flow s.flowRaw rules only s.flags
-           else (s.flags, (judgeReload flowCalc FlowRule.valid (·.res) flowInert true s.flow s.flowRaw rules only s.flags).2))
+          (if re then judgeReload flowCalc FlowRule.valid (·.res) flowInert true id s.flow s.flowRaw rules only s.flags
+           else (s.flags, (judgeReload flowCalc FlowRule.valid (·.res) flowInert true id s.flow s.flowRaw rules only s.flags).2))
         else (s.flags, s.flowRaw)
       let m := match only with
         | none => s.flow.loadRules flowCalc FlowRule.valid (·.res) s.now rules
@@ -158,8 +184,8 @@ def doLoad (oracle : Bool) (s : St) (modl : String) (re : Bool) (only : Option N
     | some rules =>
       if !rules.all hotSupported then (s, some "bad-op") else
       let (fl, raw) := if oracle then
-          (if re then judgeReload hotCalc HotRule.valid (·.res) hotInert false s.hot s.hotRaw rules only s.flags
-           else (s.flags, (judgeReload hotCalc HotRule.valid (·.res) hotInert false s.hot s.hotRaw rules only s.flags).2))
+          (if re then judgeReload hotCalc HotRule.valid (·.res) hotInert false HotRule.neutral s.hot s.hotRaw rules only s.flags
+           else (s.flags, (judgeReload hotCalc HotRule.valid (·.res) hotInert false HotRule.neutral s.hot s.hotRaw rules only s.flags).2))
         else (s.flags, s.hotRaw)
       let m := match only with
         | none => s.hot.loadRules hotCalc HotRule.valid (·.res) s.now rules
@@ -182,6 +208,12 @@ def stepCore (s : St) (ts : List String) : St × Option String :=
   | ["e", x, err, a, rt] => match x.toNat?, err.toNat?, a.toNat?, rt.toNat? with
     | some x, some err, some a, some rt => let (s, r) := entry s x (err != 0) a rt; (s, some r)
     | _, _, _, _ => (s, some "bad-op")
+  | ["in", h, x, a] => match h.toNat?, x.toNat?, a.toNat? with
+    | some h, some x, some a => let (s, r) := enterLive s h x a; (s, some r)
+    | _, _, _ => (s, some "bad-op")
+  | ["out", h, err] => match h.toNat?, err.toNat? with
+    | some h, some err => let (s, r) := exitLive s h (err != 0); (s, some r)
+    | _, _ => (s, some "bad-op")
   | [op, arg] =>
     match op.splitOn "." with
     | [m, "load"] => doLoad false s m false none arg
@@ -205,7 +237,7 @@ def stepModel (s : St) (ts : List String) (_ : String) : St × Option String :=
   | ["phase", "B"] =>
     let (_, rs) := s.recOps.foldl (fun (acc : St × Array String) o =>
       let (s', r) := stepCore acc.1 o
-      (s', match o, r with | "e" :: _, some r => acc.2.push r | _, _ => acc.2)) (({} : St), #[])
+      (s', match o, r with | "e" :: _, some r => acc.2.push r | "in" :: _, some r => acc.2.push r | _, _ => acc.2)) (({} : St), #[])
     (s, some (if rs.isEmpty then "-" else ";".intercalate rs.toList))
   | _ =>
     let (s', r) := stepCore s ts
@@ -238,6 +270,13 @@ def stepOracle0 (s : St) (ts : List String) (line : String) : St × Option Strin
     let f := if s.allUnclaimed then { f with unclaimed := true } else f
     let f := { f with after := s.reloaded }
     ({ s with recA := s.recA.push (res, f) }, some "?")
+  | "in" :: _ :: x :: _ =>
+    let x := x.toNat?.getD 0
+    let f : Flags := lookup ({} : Flags) s.flags x
+    let f := if s.allUnclaimed then { f with unclaimed := true } else f
+    let f := { f with after := s.reloaded }
+    ({ s with recA := s.recA.push (res, f) }, some "?")
+  | ["out", _, _] => (s, none)
   | ["t", _] => (s, none)
   | _ =>
     let re := isReload ts
